@@ -1371,8 +1371,14 @@ public:
 
     void collectStrings(const Stmt *S, json::Array &out, int depth = 0)
     {
-        if (!S || depth > 12)
+        if (!S || depth > 40)
             return;
+        if (const auto *UDL = dyn_cast<UserDefinedLiteral>(S)) {
+            if (UDL->getNumArgs() == 0) {
+                out.push_back(json::fixUTF8(udlText(UDL)));
+                return;
+            }
+        }
         if (const auto *E = dyn_cast<Expr>(S)) {
             if (const LambdaExpr *LE = asQStringLiteralLambdaCall(stripExpr(E))) {
                 const StringLiteral *SL = findStringLiteral(LE->getBody());
@@ -1388,6 +1394,17 @@ public:
             return;
         for (const Stmt *C : S->children())
             collectStrings(C, out, depth + 1);
+    }
+    const InitListExpr *findInitList(const Stmt *S, int depth)
+    {
+        if (!S || depth > 12)
+            return nullptr;
+        if (const auto *IL = dyn_cast<InitListExpr>(S))
+            return IL;
+        for (const Stmt *C : S->children())
+            if (auto *R = findInitList(C, depth + 1))
+                return R;
+        return nullptr;
     }
     void collectInts(const Stmt *S, json::Array &out, int depth = 0)
     {
@@ -1420,10 +1437,14 @@ public:
         std::string ts = typeStr(VD->getType());
         bool stdarr = ts.find("array<") != std::string::npos || ts.find("QStringView[") != std::string::npos;
         bool isAuto = VD->getType()->getContainedAutoType() != nullptr;
-        if (!arr && !stdarr && !isAuto)
-            return;
         std::string cts = typeStr(T);
-        if (!arr && cts.find("std::array<") == std::string::npos)
+        bool qlist = cts.find("QStringList") != std::string::npos || cts.find("QList<QString>") != std::string::npos ||
+            cts.find("QVector<QString>") != std::string::npos;
+        if (qlist && !(VD->isFileVarDecl() || VD->isStaticLocal() || VD->isStaticDataMember()))
+            return;
+        if (!arr && !stdarr && !isAuto && !qlist)
+            return;
+        if (!arr && !qlist && cts.find("std::array<") == std::string::npos)
             return;
         if (!(VD->isFileVarDecl() || VD->isStaticLocal() || VD->isStaticDataMember() || VD->isConstexpr() ||
               VD->getType().isConstQualified()))
@@ -1451,6 +1472,13 @@ public:
         }
         json::Array strs, ints;
         collectStrings(VD->getInit(), strs);
+        if (qlist) {
+            const InitListExpr *IL = findInitList(VD->getInit(), 0);
+            if (!IL)
+                return;
+            o["n"] = (int64_t)IL->getNumInits();
+            o["qlist"] = true;
+        }
         if (strs.empty())
             collectInts(VD->getInit(), ints);
         o["strs"] = std::move(strs);
